@@ -138,7 +138,15 @@ func runCheck(id, tier string, seed int, writeEvidence bool) (int, []violation) 
 		rr = &runResult{aggs: map[string]*aggObl{}}
 	} else {
 		funcs, lemmas = propFuncs(db, id)
+		if tier != "thorough" {
+			// quick tier: unclaimed obligations are generated (and listed) but not solved
+			onlyNames = map[string]bool{}
+			for _, e := range expected {
+				onlyNames[e] = true
+			}
+		}
 		rr = verifyFuncs(P, db, funcs, lemmas, work, timeout, seed)
+		onlyNames = nil
 		if tier == "thorough" {
 			// second seed: verdicts must not depend on it
 			rr2 := verifyFuncs(P, db, funcs, lemmas, filepath.Join(work, "s2"), timeout, seed+1)
